@@ -21,10 +21,12 @@ func init() {
 			{ID: "R03.3", Configs: "asm", Run: ruleR03_3},
 			{ID: "R03.4", Configs: "all", Run: ruleR03_4},
 			{ID: "R03.5", Configs: "asm", Run: func(p *Program, r *Report) { asmRuleR03_5(p, r) }},
+			{ID: "R03.6", Configs: "all", Run: ruleR03_6},
+			{ID: "R03.7", Configs: "all", Run: ruleR03_7},
 		},
 		Explanation: "Decides four structural necessary conditions of 'malformed input is rejected with the standard errors': (R03.1) every lookup-table builder clears what it does not assign - the whole short table on the no-codes return, the copied prefix before the first copy-forward, each long-table group before it is filled - so an unassigned code of an incomplete Huffman code can only decode to an invalid (zero-length) entry, never to what an earlier block left there; " +
 			"(R03.2) every internal sentinel that the decode path can return is one that isError/step classify; (R03.3) at ArchLevel>=3 every assembly outcome other than success/end-of-input reaches a return with a non-nil error before any fallback; the constants the assembly can store in errno are among the Go errorNo* values (R03.5); " +
-			"(R03.4) step returns only nil, io.EOF, io.ErrUnexpectedEOF (under err==errEndInput on the eof edge), a CorruptInputError, or the unchanged error of a source call - internal sentinels never escape.",
+			"(R03.4) step returns only nil, io.EOF, io.ErrUnexpectedEOF (under err==errEndInput on the eof edge), a CorruptInputError, or the unchanged error of a source call - internal sentinels never escape; (R03.6) the over-subscription tests compare against 1<<15 in arithmetic at least 32 bits wide (a 16-bit Kraft sum wraps for a code over-subscribed by exactly two); (R03.7) in the Go decode loop the distance lookup is reached only under symbol <= maxLitLenSym, so the invalid-entry marker of the long table cannot be taken for a match length.",
 		NotDecided: []string{
 			"termination and freedom from index panics of the decode loops (runtime arithmetic)",
 			"the accept/reject decision itself (header checks, over-subscription arithmetic)",
@@ -656,4 +658,161 @@ func ruleR03_4(p *Program, r *Report) {
 			r.Check(why == "", "R03.4", key, p.InstrPos(ret), "step returns only nil, io.EOF, io.ErrUnexpectedEOF, CorruptInputError or the source's own error", why)
 		}
 	}
+}
+
+// R03.6: the Kraft-sum comparison against 1<<maxHuffTreeDepth is done in >= 32-bit arithmetic.
+func ruleR03_6(p *Program, r *Report) {
+	r.Expect("R03.6", 2)
+	sp := p.Pkg(flateRel)
+	n := 0
+	for _, fn := range p.Funcs() {
+		if fn.Pkg != sp {
+			continue
+		}
+		lab := newLabeler()
+		for _, b := range fn.Blocks {
+			for _, in := range b.Instrs {
+				bo, ok := in.(*ssa.BinOp)
+				if !ok || bo.Op != token.GTR {
+					continue
+				}
+				k, isK := constInt(bo.Y)
+				if !isK || k != 1<<15 {
+					continue
+				}
+				n++
+				key := shortFn(fn) + "|" + lab.get("over-subscription test")
+				// every value in the additive slice of the left side must be at least 32 bits wide
+				narrow := ""
+				seen := map[ssa.Value]bool{}
+				var walk func(v ssa.Value)
+				walk = func(v ssa.Value) {
+					if v == nil || seen[v] || narrow != "" {
+						return
+					}
+					seen[v] = true
+					if bt, ok := v.Type().Underlying().(*types.Basic); ok && bt.Info()&types.IsInteger != 0 {
+						if p.Sizes.Sizeof(v.Type()) < 4 {
+							if _, isConv := v.(*ssa.Convert); !isConv {
+								narrow = v.String() + " is " + v.Type().String()
+								return
+							}
+						}
+					}
+					switch x := v.(type) {
+					case *ssa.BinOp:
+						if x.Op == token.ADD || x.Op == token.SHL || x.Op == token.SUB {
+							walk(x.X)
+							if x.Op != token.SHL {
+								walk(x.Y)
+							}
+						}
+					case *ssa.Phi:
+						for _, e := range x.Edges {
+							walk(e)
+						}
+					case *ssa.UnOp:
+						// a load from the accumulator array: its element type counts
+					case *ssa.Convert:
+						// widening conversion of a count is fine; of an element of a local accumulator array it is not:
+						// the wrap has already happened in the array
+						if ld, ok := x.X.(*ssa.UnOp); ok && ld.Op == token.MUL {
+							if ia, ok := ld.X.(*ssa.IndexAddr); ok {
+								if al, ok := ia.X.(*ssa.Alloc); ok {
+									if arr, ok := derefArray(al.Type()); ok && p.Sizes.Sizeof(arr.Elem()) < 4 && isAccumulator(al) {
+										narrow = "local accumulator array of " + arr.Elem().String()
+									}
+								}
+							}
+						}
+					}
+				}
+				walk(bo.X)
+				r.Check(narrow == "", "R03.6", key, p.InstrPos(bo), "the code-space sum compared with 1<<15 is accumulated in at least 32 bits", "accumulated in a narrower type ("+narrow+"): a code over-subscribed by exactly a factor of two wraps to 0 and is accepted")
+			}
+		}
+	}
+	if n < 2 {
+		r.Undecided("R03.6", "sites", "-", "two over-subscription tests (setCodes, setAndExpandLitLenHuffCode)", "found "+itoa(n))
+	}
+}
+
+// R03.7: the distance-table lookup of the Go decode loop is dominated by symbol <= maxLitLenSym.
+func ruleR03_7(p *Program, r *Report) {
+	r.Expect("R03.7", 1)
+	fn := p.Func(flateRel, "decodeHuffmanLargeLoop")
+	if fn == nil {
+		r.Undecided("R03.7", "anchor", "-", "decodeHuffmanLargeLoop exists", "not found")
+		return
+	}
+	maxSym, _ := constOf(p, flateRel, "maxLitLenSym")
+	n := 0
+	for _, b := range fn.Blocks {
+		for _, in := range b.Instrs {
+			u, ok := in.(*ssa.UnOp)
+			if !ok || u.Op != token.MUL {
+				continue
+			}
+			_, sel := accessPath(u.X)
+			if !strings.HasSuffix(sel, ".distTable.ShortCodeLookup[*]") {
+				continue
+			}
+			n++
+			good := false
+			facts := dominatingFacts(u)
+			// the symbol: the value that was just found not to be the end-of-block code (256)
+			var syms []ssa.Value
+			for _, f := range facts {
+				if f.Y != nil && f.Op == token.NEQ {
+					if k, isK := constInt(f.Y); isK && k == 256 {
+						syms = append(syms, f.X)
+					}
+				}
+			}
+			for _, f := range facts {
+				if f.Y == nil {
+					continue
+				}
+				isSym := false
+				for _, sv := range syms {
+					if sv == f.X {
+						isSym = true
+					}
+				}
+				if !isSym {
+					continue
+				}
+				if k, isK := constInt(f.Y); isK {
+					if (f.Op == token.LEQ && k <= maxSym) || (f.Op == token.LSS && k <= maxSym+1) {
+						good = true
+					}
+				}
+			}
+			r.Check(good, "R03.7", "decodeHuffmanLargeLoop|distance lookup#"+itoa(n), p.InstrPos(u), "a distance is looked up only for a literal/length symbol <= maxLitLenSym", "the match branch is not bounded from above: the long table's invalid-entry marker would be decoded as a match length")
+		}
+	}
+	if n == 0 {
+		r.Undecided("R03.7", "decodeHuffmanLargeLoop|distance lookup", p.Pos(fn.Pos()), "the loop reads the distance table", "not found")
+	}
+}
+
+// isAccumulator: elements of the local array are stored with sums/shifts (running totals), not plain copies.
+func isAccumulator(al *ssa.Alloc) bool {
+	if al.Referrers() == nil {
+		return false
+	}
+	for _, u := range *al.Referrers() {
+		ia, ok := u.(*ssa.IndexAddr)
+		if !ok || ia.Referrers() == nil {
+			continue
+		}
+		for _, u2 := range *ia.Referrers() {
+			if st, ok := u2.(*ssa.Store); ok {
+				if bo, ok := st.Val.(*ssa.BinOp); ok && (bo.Op == token.ADD || bo.Op == token.SHL) {
+					return true
+				}
+			}
+		}
+	}
+	return false
 }
